@@ -1190,6 +1190,15 @@ func Run(c *ev.Ctx) int {
 			}()
 		}
 	}
+	for _, strat := range []string{"otmp", "nootmp"} {
+		for _, sidecar := range []bool{false, true} {
+			wg.Add(1)
+			go func() {
+				defer wg.Done()
+				gatedLane(c, strat, sidecar)
+			}()
+		}
+	}
 	wg.Wait()
 	return c.Finish("every case = uncorrupted control (same encoding, sibling key; must be 2xx and read back byte-identical with the declared length) + one corrupted PutObject/UploadPart whose status, and the key's GET/HEAD (parts: ListParts + Complete + GET) afterwards, are compared with the previous state; distinct = (operation, mode, integrity field, corruption, key state) whose control succeeded; temp-file strategies O_TMPFILE and --disableotmp", c.Pick(200, 900))
 }
